@@ -516,14 +516,17 @@ def check_enum(cx, fn, rep, facts):
         e = b.ast[0]['expr'] if b.cat == 'stmts' and len(b.ast) == 1 and b.ast[0]['k'] == 'Expr' else None
         atoms = [a for a in S.atoms(b) if a[0] not in ('nand',)]
         if e is not None and e['k'] == 'Match' and es(e['expr']) == 'self':
-            if not (len(atoms) == 1 and atoms[0][0] == 'empty' and atoms[0][2] is False):
+            from ..emptiness import nonempty_evidence, empty_evidence, is_emptiness_atom
+            rest_ = [a for a in atoms if not is_emptiness_atom(a) and a[0] != 'data']
+            if not (not rest_ and nonempty_evidence(atoms)):
                 S.bad('SUM-DEBUG', 'enum-match-guard', '`match self` emitted under %s' % [atom_s(a)[:60] for a in atoms], b)
                 ok = False
             msite = (b, e)
         elif e is not None and e['k'] == 'MethodCall' and e['method'] == 'write_str' and es(e['recv']) == 'f' and len(e['args']) == 1:
             h = stringify_hole(e['args'][0])
             okn = h and isinstance(S.hole_term(b, h), tuple) and S.hole_term(b, h)[0] == 'some_of' and name_term_ok(S, S.hole_term(b, h)[1], ('field', ('param', 'ast'), 'ident'))
-            okg = any(a[0] == 'empty' and a[2] is True for a in atoms) and any(a[0] == 'some' and a[2] is True for a in atoms)
+            from ..emptiness import empty_evidence
+            okg = empty_evidence(atoms) and any(a[0] == 'some' and a[2] is True for a in atoms)
             if not (okn and okg):
                 S.bad('SUM-DEBUG', 'enum-empty', 'an empty enum must print its shown name (and be refused without one)', b)
                 ok = False
